@@ -144,8 +144,7 @@ def run_case(case):
         if k <= kmax:
             c.close(P[0], w2, "mstep_weights", f"weights after iteration {k}", tags)
             c.close(P[1], mu2, "mstep_means", f"means after iteration {k}", tags, scale=scale)
-            if not info["count_floor_active"]:
-                c.close(P[2], var2, "mstep_variances", f"variances after iteration {k}", tags, scale=scale * scale)
+            c.close(P[2], var2, "mstep_variances", f"variances after iteration {k}", tags, scale=scale * scale)
             # (b) monotone mean log-likelihood
             if active:
                 c.count("floor_active_steps")
